@@ -21,7 +21,8 @@ CONFIG = {
             "bookkeeping.BlockHeader/Block, agreement vote/unauthenticatedVote/bundle/proposal/transmittedPayload/Certificate..., "
             "basics.AccountData, trackerdb/ledgercore records, crypto signatures, state proofs) N random instances from the "
             "repository's own protocol.RandomizeObject (4 option mixes incl. zero fields and all uint sizes; math/rand seeded from "
-            "VERIF_SEED): value tree (by reflection along the generated schema), protocol.Encode (msgp) bytes, protocol.EncodeReflect "
+            "VERIF_SEED), plus honestly built objects with legal inner-transaction nesting 1..16 levels for the recursive roots "
+            "(SignedTxnWithAD, SignedTxnInBlock, ApplyData, EvalDelta, Payset, Block, unauthenticatedProposal): value tree (by reflection along the generated schema), protocol.Encode (msgp) bytes, protocol.EncodeReflect "
             "(go-codec) bytes, protocol.Decode of the msgp bytes + value tree + re-encoding, least AllowableDepth accepted by the "
             "generated decoder.  spec_ok (on the implementation only): msgp bytes = go-codec bytes, decode succeeds iff the instance is "
             "well-typed, decoded tree = normal form of the instance, re-encoding = original bytes.  corr: model enc = bytes, model "
